@@ -27,7 +27,7 @@ macro_rules! int_dec {
             out.push(b'x');
             let r = v.format_response_data(&mut out);
             let mut e = [0u8; 40];
-            let n = spec_dec(v as i128, &mut e);
+            let n = spec_dec32(v as i32, &mut e);
             kani::cover!(v == <$t>::MIN);
             kani::cover!(v == <$t>::MAX);
             assert!(r.is_ok(), "C09/int::format_response_data/ok");
@@ -317,7 +317,7 @@ macro_rules! block_case {
         };
         assert!(r.is_ok(), "C09/Arbitrary::format_response_data/ok");
         let mut d = [0u8; 40];
-        let nd = spec_dec($n as i128, &mut d);
+        let nd = spec_dec32($n as i32, &mut d);
         assert!(out.len() == 2 + nd + $n, "C09/Arbitrary::format_response_data/total-length");
         assert!(out[0] == b'#' && out[1] == b'0' + nd as u8, "C09/Arbitrary::format_response_data/header-states-the-number-of-length-digits");
         assert!(bytes_eq(&out[2..2 + nd], &d[..nd]), "C09/Arbitrary::format_response_data/header-states-the-payload-length");
@@ -399,7 +399,7 @@ macro_rules! error_case {
         let out = fo.as_slice();
         assert!(r.is_ok(), "C09/Error::format_response_data/ok");
         let mut d = [0u8; 40];
-        let nd = spec_dec(code as i128, &mut d);
+        let nd = spec_dec32(code as i32, &mut d);
         let tail = if $ext { 3 } else { 0 };
         assert!(out.len() == nd + 2 + $n + tail + 1, "C09/Error::format_response_data/length");
         assert!(bytes_eq(&out[..nd], &d[..nd]), "C09/Error::format_response_data/starts-with-the-error-number");
